@@ -206,6 +206,23 @@ def bool_uses(body, local, parity=True, seen=None):
     return out
 
 
+def same_bool_edges(body, local, val):
+    """edges to drop when bool `local` is known to be `val`"""
+    drop = set()
+    for (bb, truth) in bool_uses(body, local):
+        t = body.term(bb)
+        zero_t = None
+        for v in t["vals"]:
+            if v[0] == "0":
+                zero_t = v[1]
+        nz_t = t["else"]
+        if zero_t is None or zero_t == nz_t:
+            continue
+        nonzero = (val == truth)
+        drop.add((bb, zero_t) if nonzero else (bb, nz_t))
+    return drop
+
+
 def reach_with(body, start, avoid=(), drop_edges=()):
     avoid = set(avoid)
     drop_edges = set(drop_edges)
@@ -579,8 +596,12 @@ def classify_reach(target_pats, yes="HIT", no="MISS", S=None, depth=2):
             hit = S.hit_blocks(body, ps, depth)
         else:
             hit = {c.bb for c in body.calls if call_matches_any(c, ps)}
-        rt = bool(body.reachable(tt, avoid=[ft]) & hit)
-        rf = bool(body.reachable(ft, avoid=[tt]) & hit)
+        # path-sensitive in the compared boolean itself: later branches on the same value keep their side
+        dt, df = same_bool_edges(body, site.result, True), same_bool_edges(body, site.result, False)
+        rt = bool(reach_with(body, tt, drop_edges=dt)[0] & hit)
+        rf = bool(reach_with(body, ft, drop_edges=df)[0] & hit)
+        if not rt and not rf:
+            return None
         return (yes if rt else no, yes if rf else no)
     return f
 
@@ -684,3 +705,59 @@ def effects(F, S, body, table, depth=4, seen=None):
             for cl in S.closure_args(c):
                 out |= effects(F, S, cl, table, depth - 1, seen)
     return out
+
+
+# ------------------------------------------------------------------ aggregates / enum arms
+
+def agg_sites(body, adt, variant=None):
+    """[(bb, rvalue, line)] for aggregate constructions of adt(::variant) in body."""
+    out = []
+    for i, blk in enumerate(body.blocks):
+        for st in blk["s"]:
+            rv = st[1]
+            if rv.get("k") == "agg" and rv.get("adt") == adt and (variant is None or rv.get("variant") == variant):
+                out.append((i, rv, st[2]))
+    return out
+
+
+def agg_field_sources(body, rv, field):
+    fs = rv.get("fields") or []
+    if field not in fs:
+        return None
+    i = fs.index(field)
+    ops = rv.get("ops", [])
+    if i >= len(ops):
+        return None
+    return body.operand_sources(ops[i])
+
+
+def enum_arms(body, adt, src_pats=None):
+    """Switches on the discriminant of a value of enum `adt` (optionally: whose provenance matches src_pats).
+    Returns list of (switch_bb, {variant_name: target_bb}, otherwise_bb)."""
+    out = []
+    for i, blk in enumerate(body.blocks):
+        t = blk["t"]
+        if t.get("k") != "switch" or "p" not in t["d"]:
+            continue
+        dl = t["d"]["p"][0]
+        for d in body.defs().get(dl, []):
+            if d[0] != "assign":
+                continue
+            rv = d[3]
+            if rv.get("k") == "discr" and rv.get("adt") == adt:
+                if src_pats is not None:
+                    srcs = body.operand_sources({"p": rv["p"]})
+                    if not src_match(srcs, src_pats):
+                        continue
+                names = {v[0]: v[1] for v in rv.get("vars", [])}
+                arms = {}
+                for val, tgt in t["vals"]:
+                    arms[names.get(val, val)] = tgt
+                out.append((i, arms, t["else"]))
+    return out
+
+
+def dominated_by_block(body, bb, call_pat):
+    """all calls matching call_pat are dominated by block bb"""
+    cs = body.calls_to(call_pat)
+    return cs and all(body.dominates(bb, c.bb) for c in cs)
